@@ -54,6 +54,32 @@ func f(p *d.T) int64 {
 	return nanotime()
 }
 """,
+    # writes to variables of another package, aliases of types that are not defined types
+    "pkgvars": """package gen
+
+import "m/d"
+
+type Headers = map[string][]string
+
+type ID = string
+
+type Fn = func(int) int
+
+type Pair = struct{ A, B int }
+
+type PP = *Pair
+
+func f(p *d.T, h Headers, id ID, fn Fn, pp PP) {
+	d.Counter++
+	d.Counter = 2
+	d.Counter += 3
+	d.Table[0] = 4
+	p.X = 5
+	_ = d.PF(6)
+	var x ID = id
+	_, _, _, _ = x, h, fn, pp
+}
+""",
     # generic code using the annotated types
     "generic": """package gen
 
